@@ -622,10 +622,18 @@ class SqlalchemyRender:
             if col.nullable is not None:
                 kwargs['nullable'] = col.nullable
 
+            sa_type = self.get_type(col_type)
+            if col.length is not None and isinstance(sa_type, type):
+                # varchar(10), char(3), decimal(10): the declared length belongs to the type
+                try:
+                    sa_type = sa_type(int(col.length))
+                except (TypeError, ValueError):
+                    pass
+
             columns.append(
                 sa.Column(
                     col.name,
-                    self.get_type(col_type),
+                    sa_type,
                     **kwargs
                 )
             )
